@@ -193,6 +193,9 @@ func (m *Muxer) AddChunk(id ChunkID, data []byte) error {
 		m.exifData = data
 	case FourCCXMP:
 		m.xmpData = data
+	default:
+		// Only the three metadata chunks have a place in the output.
+		return fmt.Errorf("mux: unsupported chunk id %q", string([]byte{byte(id), byte(id >> 8), byte(id >> 16), byte(id >> 24)}))
 	}
 	return nil
 }
